@@ -63,17 +63,17 @@ CLAIMED = {
         technique='Coq proof over executable Gallina model + differential correspondence (extracted OCaml) + direct property oracle',
         ref='7/C07'),
     'C08': dict(
-        text='44 theorems over the model of MultiProcessCollector.merge (model/Multiproc.v) and its declarative spec: every series equals the per-mode aggregate of its contributions in read order, no series duplicated or dropped, histogram buckets merged per parsed bound, sorted, cumulative, _count = +Inf bucket, min/max order independent for NaN-free input, mark_process_dead removes exactly the live-mode gauge files of that pid. Tie: 1-4 simulated processes (child interpreter with PROMETHEUS_MULTIPROC_DIR), all 10 gauge modes, dead pids, pid reuse; model fed the entries read from the files in the actual read order; thorough tier forks real workers. Added (C08h, model/MultiHist.v): over WORKER HISTORIES - any interleaving of worker steps on one shared directory, any mark_process_dead points and pid reuse - the files of a pid are those of the single-process run of its calls, and each counter/summary/histogram/gauge series the collector reports is the per-mode aggregate of the workers in-memory values; replayed against the real code by a multi-history stream.',
+        text='45 theorems over the model of MultiProcessCollector.merge (model/Multiproc.v) and its declarative spec: every series equals the per-mode aggregate of its contributions in read order, no series duplicated or dropped, histogram buckets merged per parsed bound, sorted, cumulative, _count = +Inf bucket, min/max order independent for NaN-free input, mark_process_dead removes exactly the live-mode gauge files of that pid. Tie: 1-4 simulated processes (child interpreter with PROMETHEUS_MULTIPROC_DIR), all 10 gauge modes, dead pids, pid reuse; model fed the entries read from the files in the actual read order; thorough tier forks real workers. Added (C08h, model/MultiHist.v): over WORKER HISTORIES - any interleaving of worker steps on one shared directory, any mark_process_dead points and pid reuse - the files of a pid are those of the single-process run of its calls, and each counter/summary/histogram/gauge series the collector reports is the per-mode aggregate of the workers in-memory values; replayed against the real code by a multi-history stream.',
         note='Trusted: float order laws as Section hypotheses (< irreflexive/transitive, totality on non-NaN), floatToGoString injective on bounds, JSON key codec, glob order observed not assumed.',
         technique='Coq proof over executable Gallina model + differential correspondence (extracted OCaml) + direct property oracle',
         ref='7/C08'),
     'C09': dict(
-        text="7 theorems over the model of the MultiProcessValue closure (model/Values.v): a step under identity p changes no file of another pid; after an identity change every live value is re-bound to the new pid's file and continues from what it holds (0 if absent); every cell equals the left fold of exactly the updates issued under that identity; integer corollary: the sum over all pid files equals the sum of all increments. Tie: histories with identity changes at every position, per-step snapshot of which files changed; thorough tier uses real os.fork().",
+        text="11 theorems over the model of the MultiProcessValue closure (model/Values.v): a step under identity p changes no file of another pid; after an identity change every live value is re-bound to the new pid's file and continues from what it holds (0 if absent); every cell equals the left fold of exactly the updates issued under that identity; integer corollary: the sum over all pid files equals the sum of all increments. Tie: histories with identity changes at every position, per-step snapshot of which files changed; thorough tier uses real os.fork().",
         note='Trusted: mmap file abstracted to key -> (value, timestamp) (justified by C10); wf_hist: no two live values share (prefix, key).',
         technique='Coq proof over executable Gallina model + differential correspondence (extracted OCaml) + direct property oracle',
         ref='7/C09'),
     'C16': dict(
-        text='22 theorems over a call-language model of the three context managers/decorators and of Python argument binding (model/Wrappers.v): transparency (same value / same exception object) for every body and nesting, in-progress gauge balanced, exactly one non-negative observation per timed call for any clock, counter +1 iff a matching exception escapes, forwarding of every argument shape; refutation witnesses for positional-only/keyword collisions (known finding). Tie: exec-generated callables x call shapes x scripted clocks compared with the model; direct oracle compares wrapped with undecorated behaviour.',
+        text='23 theorems over a call-language model of the three context managers/decorators and of Python argument binding (model/Wrappers.v): transparency (same value / same exception object) for every body and nesting, in-progress gauge balanced, exactly one non-negative observation per timed call for any clock, counter +1 iff a matching exception escapes, forwarding of every argument shape; refutation witnesses for positional-only/keyword collisions (known finding). Tie: exec-generated callables x call shapes x scripted clocks compared with the model; direct oracle compares wrapped with undecorated behaviour.',
         note='Partial by design: exec-generated functions, __wrapped__, attribute copying, the with-statement protocol are runtime and checked by the direct oracle only. Two known findings in the vendored decorator module (posonly_kw_collision, reserved_param_name).',
         technique='Coq proof over executable Gallina model + differential correspondence (extracted OCaml) + direct property oracle',
         ref='7/C16'),
